@@ -860,6 +860,45 @@ func (e *Engine) builtin(b *ssa.Builtin, args []Value, cs *callSite) Value {
 		return p
 	case "new":
 		e.unsupported("builtin new as value")
+	case "SliceData":
+		s := args[0].(*Slice)
+		if s.P == nil {
+			return NilPtr
+		}
+		if _, ok := e.container(s.P).(*Bytes); ok {
+			return &Pointer{O: s.P.O, Path: s.P.Path, Sym: s.Off}
+		}
+		k := e.concretize(s.Off, e.cfg.MaxAlloc, "SliceData offset")
+		return &Pointer{O: s.P.O, Path: extendPath(s.P.Path, int(k))}
+	case "String":
+		p := args[0].(*Pointer)
+		n := e.toI64(args[1].(*Term), cs.instr.Common().Args[1].Type())
+		if p.IsNil() {
+			return ConcStr("")
+		}
+		b, ok := e.container(&Pointer{O: p.O, Path: p.Path}).(*Bytes)
+		if !ok || p.Sym == nil {
+			e.unsupported("unsafe.String on non-byte storage")
+		}
+		return e.mkString(b.A, p.Sym, n)
+	case "StringData":
+		s := args[0].(*String)
+		a, off := s.arr()
+		o := e.newObject(nil, &Bytes{A: a, N: BVBin("bvadd", off, s.LenTerm())}, "StringData")
+		return &Pointer{O: o, Sym: off}
+	case "Slice":
+		p := args[0].(*Pointer)
+		n := e.toI64(args[1].(*Term), cs.instr.Common().Args[1].Type())
+		if p.IsNil() {
+			return &Slice{Off: I64C(0), Len: I64C(0), Cap: I64C(0)}
+		}
+		if p.Sym != nil {
+			return &Slice{P: &Pointer{O: p.O, Path: p.Path}, Off: p.Sym, Len: n, Cap: n}
+		}
+		if len(p.Path) == 0 {
+			e.unsupported("unsafe.Slice on whole object")
+		}
+		return &Slice{P: &Pointer{O: p.O, Path: p.Path[:len(p.Path)-1]}, Off: I64C(int64(p.Path[len(p.Path)-1])), Len: n, Cap: n}
 	}
 	e.unsupported("builtin %s on %T", b.Name(), args[0])
 	return nil
